@@ -162,10 +162,12 @@ add("QBC_KL", P.QueryByCommittee, lambda s, ml=NAN: P.QueryByCommittee(missing_l
     lambda c: dict(ensemble=clf_bag(c["classes"], c.get("ml", NAN))), arbitrary_index_ok=True,
     model_arg="ensemble")
 for _m, _n in [("KL_divergence", "KL"), ("vote_entropy", "VE"), ("variation_ratios", "VR")]:
+    # the vote-based methods count the members' hard predictions, whose ties are broken at random: another candidate set or
+    # row order changes the random stream, so restriction / permutation are only claimed for the probability-based method
     add("QBC_%s_list" % _n, P.QueryByCommittee,
         lambda s, ml=NAN, m=_m: P.QueryByCommittee(method=m, missing_label=ml, random_state=s),
         lambda c: dict(ensemble=ens_list(c["classes"], c.get("ml", NAN))), arbitrary_index_ok=True,
-        independent=True, perm=True, model_arg="ensemble")
+        independent=(_n == "KL"), perm=(_n == "KL"), model_arg="ensemble")
 add("BatchBALD", P.BatchBALD, lambda s, ml=NAN: P.BatchBALD(missing_label=ml, random_state=s),
     lambda c: dict(ensemble=clf_bag(c["classes"], c.get("ml", NAN))), arbitrary_index_ok=True,
     model_arg="ensemble", nmax=25)
